@@ -36,10 +36,12 @@ class PostOrderIterator(Iterator[Block]):
             self.stack.append((block, True))
             term = block.last_op
             if isinstance(term, Operation) and term.has_trait(IsTerminator()):
+                # a block may appear several times in the successor list
+                successors = tuple(dict.fromkeys(term.successors))
                 self.stack.extend(
-                    (x, False) for x in reversed(term.successors) if x not in self.seen
+                    (x, False) for x in reversed(successors) if x not in self.seen
                 )
-                self.seen.update(term.successors)
+                self.seen.update(successors)
             # stack cannot be empty here
             (block, visited) = self.stack.pop()
         return block
